@@ -216,3 +216,16 @@ func VerifC09AndOr() {
 	nd.Assert(ch == ((ta || tb) && tc) || ch == (ta || (tb && tc)), "chained-and-or-is-a-boolean-combination")
 	nd.Reach("C09.andor")
 }
+
+// VerifC09NestedDrop: a Drop reached by lookup (a map entry, an array element) compares exactly as
+// the value it stands for, on either side of the operator: equality stays symmetric.
+func VerifC09NestedDrop() {
+	v, w := c09Operand(nd.Choice(c09OpKinds)), c09Operand(nd.Choice(c09OpKinds))
+	plain := map[string]any{"x": w, "m": map[string]any{"d": v}, "l": []any{v}}
+	drops := map[string]any{"x": w, "m": map[string]any{"d": c09Drop{v}}, "l": []any{c09Drop{c09Drop{v}}}}
+	for _, e := range []string{"x == m.d", "m.d == x", "x != l[0]", "l[0] != x", "x < m.d", "m.d < x", "l.first >= x", "m.d == m.d", "m.d == l[0]"} {
+		nd.Assert(c09Bool(e, plain) == c09Bool(e, drops), "nested-drop-compares-as-its-value")
+	}
+	nd.Assert(c09Bool("x == m.d", drops) == c09Bool("m.d == x", drops), "eq-symmetric")
+	nd.Reach("C09.nesteddrop")
+}
